@@ -166,12 +166,13 @@ struct RunOut {
     fired: std::collections::BTreeMap<&'static str, u64>,
     reads_after_fault: bool,
     trace: u64,
+    flavours: [u64; 16],
 }
 
 /// Execute the read-only workload on `image` with the given fault plan.
 fn execute(image: &[u8], truth: &Model, reference: Option<&[Res]>, work: &[Op], strict: bool, bufsize: Option<usize>, plan: &[Fault], retry: bool) -> RunOut {
     let disk = SimDisk::with_plan(image.to_vec(), plan.to_vec());
-    let mut out = RunOut { results: vec![], n_events: 0, violation: None, fired: Default::default(), reads_after_fault: false, trace: 0 };
+    let mut out = RunOut { results: vec![], n_events: 0, violation: None, fired: Default::default(), reads_after_fault: false, trace: 0, flavours: [0; 16] };
     // open with retries
     let mut lib: Option<Lib> = None;
     for attempt in 0..4 {
@@ -349,6 +350,7 @@ fn execute(image: &[u8], truth: &Model, reference: Option<&[Res]>, work: &[Op], 
     lib.close();
     let d = disk.0.borrow();
     out.n_events = d.k;
+    out.flavours = d.flavour_counts;
     out.fired = d.fired.clone();
     out.trace = d.hash.finish();
     out
@@ -435,6 +437,11 @@ pub fn run(case: &Case, _known: &BTreeSet<String>) -> Outcome {
         o.stats.api_calls += work.len() as u64;
         o.stats.boundary_checks += 1;
         o.stats.absorb_fired(&r.fired);
+        for (fl, n) in r.flavours.iter().enumerate() {
+            if *n > 0 {
+                o.stats.probe_n(&format!("error_kind_fired:{}", crate::disk::flavour_name(fl as u8)), *n);
+            }
+        }
         traces.insert(r.trace);
         any_read_after |= r.reads_after_fault;
         if let Some(v) = r.violation {
